@@ -210,6 +210,41 @@ def load(config="cli"):
     return facts, info
 
 
+def load_file(relpath, crate_name, edition="2021"):
+    """Facts of ONE source file compiled as its own crate (for files bindgen ships as text, such as
+    codegen/bitfield_unit.rs, which the library itself only compiles under cfg(test))."""
+    ensure_driver()
+    src = os.path.join(REPO, relpath)
+    with open(src, "rb") as fh:
+        h = hashlib.sha256(fh.read())
+    try:
+        with open(DRIVER, "rb") as fh:
+            h.update(hashlib.sha256(fh.read()).digest())
+    except OSError:
+        pass
+    os.makedirs(CACHE, exist_ok=True)
+    path = os.path.join(CACHE, "file-%s-%s.json" % (crate_name, h.hexdigest()[:20]))
+    if not os.path.exists(path):
+        scratch = tempfile.mkdtemp(prefix="bgv-file-", dir=os.environ.get("BGV_SCRATCH", tempfile.gettempdir()))
+        try:
+            env = dict(os.environ, LD_LIBRARY_PATH=_nightly_sysroot() + "/lib:" + os.environ.get("LD_LIBRARY_PATH", ""),
+                       BGV_OUT=scratch, BGV_CRATES=crate_name)
+            nightly_rustc = subprocess.check_output(["rustup", "which", "--toolchain", "nightly", "rustc"], text=True).strip()
+            r = subprocess.run([DRIVER, nightly_rustc, "--edition", edition, "--crate-type", "lib", "--crate-name", crate_name,
+                                "--emit=metadata", "-Awarnings", "-o", os.path.join(scratch, "out.rmeta"), src],
+                               env=env, stdout=subprocess.PIPE, stderr=subprocess.STDOUT, text=True)
+            outs = [f for f in os.listdir(scratch) if f.startswith(crate_name + "-") and f.endswith(".json")]
+            if r.returncode != 0 or len(outs) != 1:
+                raise ToolError("%s does not compile as a stand-alone crate:\n%s" % (relpath, r.stdout[-4000:]))
+            os.replace(os.path.join(scratch, outs[0]), path + ".tmp%d" % os.getpid())
+            os.replace(path + ".tmp%d" % os.getpid(), path)
+        finally:
+            shutil.rmtree(scratch, ignore_errors=True)
+    with open(path) as fh:
+        facts = json.load(fh)
+    return facts, {"config": "file:" + relpath, "crate": crate_name, "bodies": len(facts["fns"])}
+
+
 if __name__ == "__main__":
     for c in sys.argv[1:] or ["cli"]:
         f, i = load(c)
